@@ -1,11 +1,171 @@
+/-
+C18 driver: `run <A|B> <user|rr|qs> <ncr> <T ms> <pre> <k> <-|c<ms>j<ms>> <server>...`
+server = `<trust>/<warm>/<-|u|t|ut>/<udp script|->/<tcp script|->`, script = steps `<reply><lat>` joined by `.`
+-/
 import HickoryVerif.Drv.Proto
+import HickoryVerif.Model.Pool
 
 namespace HickoryVerif.Drv.C18
-open HickoryVerif HickoryVerif.Drv
+open HickoryVerif HickoryVerif.Drv HickoryVerif.Pool
 
 abbrev State := Unit
 def init : State := ()
 
-def step (s : State) (_toks : List String) : State × String := (s, "bad-op")
+def parseReply : String → Option Reply
+  | "ans" => some .ans | "nx" => some .nx | "nd" => some .nd | "sf" => some .sf | "rf" => some .rf
+  | "tc" => some .tc | "to" => some .to | "io" => some .io | "rst" => some .rst
+  | "busy" => some .busy | "cm" => some .cm
+  | _ => none
+
+def parseStep (s : String) : Option Step :=
+  let cs := s.toList
+  let a := cs.takeWhile (fun c => !c.isDigit)
+  let d := cs.dropWhile (fun c => !c.isDigit)
+  if d.isEmpty || !d.all Char.isDigit then none else do
+    let r ← parseReply (String.ofList a)
+    let l ← (String.ofList d).toNat?
+    if l > 100000 then none else pure ⟨r, l⟩
+
+def parseScript (s : String) : Option (Option (List Step)) :=
+  if s == "-" then some none else do
+    let v ← (s.splitOn ".").mapM parseStep
+    if v.isEmpty || v.length > 8 then none else pure (some v)
+
+structure SrvTok where
+  srv : Server
+  preU : Bool
+  preT : Bool
+
+def parseSrv (s : String) : Option SrvTok :=
+  match s.splitOn "/" with
+  | [tr, w, pre, u, t] => do
+    let trust ← (match tr with | "1" => some true | "0" => some false | _ => none)
+    let warm ← w.toNat?
+    let (preU, preT) ← (match pre with
+      | "-" => some (false, false) | "u" => some (true, false)
+      | "t" => some (false, true) | "ut" => some (true, true) | _ => none)
+    let udp ← parseScript u
+    let tcp ← parseScript t
+    if udp.isNone && tcp.isNone then none
+    else if (preU && udp.isNone) || (preT && tcp.isNone) || warm > 8 then none
+    else pure ⟨⟨trust, warm, udp, tcp⟩, preU, preT⟩
+  | _ => none
+
+def parseCancel (s : String) : Option (Option (Nat × Nat)) :=
+  if s == "-" then some none else
+  match s.toList with
+  | 'c' :: rest =>
+    match (String.ofList rest).splitOn "j" with
+    | [a, b] => do
+      let a ← a.toNat?
+      let b ← b.toNat?
+      pure (some (a, b))
+    | _ => none
+  | _ => none
+
+def showRes : Res → String
+  | .ans i p => "ans:s" ++ toString i ++ (match p with | .udp => "u" | .tcp => "t")
+  | .err e => "err:" ++ (match e with
+    | .noconn => "noconn" | .timeout => "timeout" | .io => "io" | .busy => "busy" | .msg => "msg"
+    | .nx => "nx" | .nodata => "nodata" | .rcode => "rcode")
+
+/-- log entries carry a sort key `(2·start + half, server, protocol)`; `half = 1` for the second
+lookup of the cancel scenario, which runs half a millisecond off the grid -/
+structure LogEnt where
+  key : Nat
+  srv : Nat
+  proto : Proto
+  start : Nat
+
+def LogEnt.lt (a b : LogEnt) : Bool :=
+  a.key < b.key || (a.key == b.key && (a.srv < b.srv ||
+    (a.srv == b.srv && (a.proto == .udp && b.proto == .tcp))))
+
+def insertLog (e : LogEnt) : List LogEnt → List LogEnt
+  | [] => [e]
+  | x :: xs => if e.lt x then e :: x :: xs else x :: insertLog e xs
+
+def sortLog : List LogEnt → List LogEnt
+  | [] => []
+  | e :: es => insertLog e (sortLog es)
+
+def showLog (times : Bool) (l : List LogEnt) : String :=
+  if l.isEmpty then "-" else
+  ",".intercalate ((sortLog l).map fun e =>
+    "s" ++ toString e.srv ++ (match e.proto with | .udp => "u" | .tcp => "t") ++
+    (if times then "@" ++ toString e.start else ""))
+
+def mkLog (half shift : Nat) (l : List (Nat × Xch)) : List LogEnt :=
+  l.map fun (i, x) => ⟨2 * (x.start + shift) + half, i, x.proto, x.start + shift⟩
+
+def FUEL : Nat := 200000
+
+def handle (toks : List String) : Option String :=
+  match toks with
+  | "run" :: mode :: strat :: ncr :: tms :: pre :: k :: cx :: srvToks => do
+    let paced ← (match mode with | "A" => some false | "B" => some true | _ => none)
+    let strategy ← (match strat with
+      | "user" => some Strategy.user | "rr" => some Strategy.rr | "qs" => some Strategy.qs | _ => none)
+    let ncr ← ncr.toNat?
+    let tms ← tms.toNat?
+    let pre ← pre.toNat?
+    let k ← k.toNat?
+    let cx ← parseCancel cx
+    let srvs ← srvToks.mapM parseSrv
+    if srvs.isEmpty || srvs.length > 8 || k == 0 || k > 8 || ncr > 8 || pre > 16 || tms == 0 then none
+    let anyPre := srvs.any fun s => s.preU || s.preT
+    let anyWarm := srvs.any fun s => s.srv.warm > 0
+    if anyPre && (anyWarm || pre > 0) then none
+    if anyWarm && strategy != .qs then none
+    if pre > 0 && strategy != .rr then none
+    let cfg : Cfg := ⟨srvs.map (·.srv), strategy, ncr, tms⟩
+    let conns : List Conn := srvs.map fun s => { liveU := s.preU, liveT := s.preT }
+    let times := !paced
+    let fmt := fun (r : Res) (t : Nat) (log : List LogEnt) =>
+      showRes r ++ (if paced then " late=" ++ showBool (t > tms + 25) else " t=" ++ toString t) ++
+        " log=" ++ showLog times log ++ " same=1"
+    match cx with
+    | none =>
+      let (r, st) ← trySend cfg (rrNextAfter cfg pre) 0 conns FUEL
+      pure (fmt r st.clock (mkLog 0 0 st.log))
+    | some (tc, tj) =>
+      -- restricted scenario: one protocol per server, one-step scripts that cannot re-queue for ever
+      let oneProto := fun (s : Server) => s.udp.isNone || s.tcp.isNone
+      let okScript := fun (isTcp : Bool) (sc : Option (List Step)) => match sc with
+        | none => true
+        | some [st] => st.reply != .rst && !(isTcp && (st.reply == .tc || st.reply == .cm))
+        | _ => false
+      if tj ≤ tc || strategy != .user || anyPre then none
+      if !(cfg.servers.all fun s => oneProto s && okScript false s.udp && okScript true s.tcp) then none
+      let (r, st) ← trySend cfg 0 0 conns FUEL
+      let t1 := st.clock
+      let creatorDone := t1 ≤ tc
+      let log1 := if k == 1 && !creatorDone then st.log.filter (fun e => e.2.start ≤ tc) else st.log
+      let log := mkLog 0 0 log1 ++ mkLog 1 tj st.log
+      let t2 := tj + t1
+      let first := if k ≥ 2 then t1 else t2
+      pure (fmt r first log ++
+        (if creatorDone then " c0=" ++ showRes r ++ "@" ++ toString t1 else " c0=cancelled") ++
+        " j=" ++ showRes r ++ "@" ++ toString t2)
+  | "seq" :: strat :: ncr :: tms :: att :: m :: gap :: srvToks => do
+    let strategy ← (match strat with
+      | "user" => some Strategy.user | "rr" => some Strategy.rr | _ => none)
+    let ncr ← ncr.toNat?
+    let tms ← tms.toNat?
+    let att ← (if att == "-" then some none else att.toNat?.map some)
+    let m ← m.toNat?
+    let gap ← gap.toNat?
+    let srvs ← srvToks.mapM parseSrv
+    if srvs.isEmpty || srvs.length > 8 || ncr > 8 || tms == 0 || m == 0 || m > 8 || gap > 1000 then none
+    if (att.getD 0) > 4 || (srvs.any fun s => s.srv.warm > 0) then none
+    let cfg : Cfg := ⟨srvs.map (·.srv), strategy, ncr, tms⟩
+    let conns : List Conn := srvs.map fun s => { liveU := s.preU, liveT := s.preT }
+    let (rs, p) ← Pool.seq cfg FUEL att gap m ⟨conns, 0, 0, []⟩ []
+    pure (";".intercalate (rs.map fun (r, t) => showRes r ++ "@" ++ toString t) ++
+      " log=" ++ showLog true (mkLog 0 0 p.log))
+  | _ => none
+
+def step (s : State) (toks : List String) : State × String :=
+  (s, (handle toks).getD "bad-op")
 
 end HickoryVerif.Drv.C18
